@@ -71,6 +71,59 @@ CLAIMS.update({
         note="Trusted: small-argument expansion of K_v; published constants compared with per-identity tolerances (1e-3, 2.5e-2)."),
 })
 
+CLAIMS.update({
+    "C19": dict(
+        category="other", design="DESIGN.md §3 C19",
+        technique="static analysis: loop body analysed once with the lag symbolic; stored value/index compared with the definition as normal forms; affine index-coverage of allocations; degree queries",
+        text=("Structure-function estimator: stored value == mean((phase[:-i]-phase[i:])**2) at index i/step, written-index set vs "
+              "allocation (an element of a numpy.empty result never written is a violation; lag 0 must be 0), degree 2 in the data; "
+              "temporal power spectrum and its frequency axis equal their definitions as normal forms, same truncation. Agreement "
+              "with analytic structure functions on generated screens is not decided."),
+        note="Trusted: numpy.fft.fftfreq contract; numpy.empty returns uninitialised memory; step is a positive integer."),
+    "C18": dict(
+        category="other", design="DESIGN.md §3 C18",
+        technique="static analysis: label bookkeeping (edges produced vs labels consumed), affine index coverage, normal-form slab identities, interval tiling with a trip-count case split",
+        text=("equivalent_layers: number of slab edges equals L by construction (a float-step arange is a violation), first edge = "
+              "h.min(), digitize labels = labels consumed, outputs of length L fully written, slab-wise strength and 5/3-moment "
+              "identities; optimal grouping: the split->group conversion tiles [0, N) into len(splits)+1 contiguous groups for every "
+              "number of splits including 0. Optimality, GCTM accuracy and non-negativity are not decided."),
+        note="Trusted: numpy.digitize / numpy.arange length contracts; L positive integer."),
+    "C15": dict(
+        category="other", design="DESIGN.md §3 C15",
+        technique="static analysis: per-path normal forms of the centroiders; homogeneity-degree queries; branch-sibling agreement; comparison with oracle definitions",
+        text=("Scale invariance of every centroider on every rank path (degree 0 in the image), agreement of the 2-D and N-D threshold "
+              "transforms and per-frame reductions (stack = frames), moment formulas and (x, y) order, rank-threshold of "
+              "brightest_pixel, cross-correlation formula and padding offset, quad-cell numerator. Exact shift equivariance and "
+              "correlation peak position are not decided. Known findings: quadCell not normalised; centre_of_gravity 2-D vs N-D."),
+        note="Trusted: homogeneity table of numpy reductions in sa/plf.py; min_threshold = 0; images non-negative."),
+    "C14": dict(
+        category="other", design="DESIGN.md §3 C14",
+        technique="static analysis: circle reduced to a normal form and compared with the indicator definition; selection/fill-factor normal forms; loop-nest and counter rules for the scatter",
+        text=("circle == indicator of the closed disc on half-integer pixel centres for both origins (so nesting/symmetry/shift "
+              "covariance follow); selection keeps a cell iff mean >= threshold and reports that mean; cell bounds agree between "
+              "selection and fill-factor function; scatter is row-major with a counter advancing once per active cell. The area "
+              "limit is not decided."),
+        note="Trusted: oracle text in sa/props/c14.py; numpy boolean-mask order is row-major; size integer."),
+    "C16": dict(
+        category="other", design="DESIGN.md §3 C16",
+        technique="static analysis: normal forms of binning (summarised loops), zoom paths and radial reductions decomposed; library constructors resolved in the installed SciPy and inspected for an unconditional raise",
+        text=("Binning = strided accumulation over the last two axes with one n (both rank branches); both zoom entry points use a "
+              "callable spline constructor on pixel-index nodes, evaluate on linspace(0, n-1, new), split complex data as "
+              "f(real)+1j f(imag); azimuthal average is a convex combination over nested ring masks with full allocation coverage; "
+              "encircled energy starts at (0,0), is normalised once by the total, uses growing nested apertures. Spline exactness and "
+              "monotone interpolation are not decided."),
+        note="Trusted: installed SciPy sources; C14.M1; RectBivariateSpline(s=0) interpolates."),
+    "C12": dict(
+        category="other", design="DESIGN.md §3 C12",
+        technique="static analysis: function-by-function comparison with Noll's definitions as normal forms (callees opaque), index/coverage rules for the dispatch, library attribute resolution",
+        text=("Library attributes used by zernike.py/pupil.py exist; zernike_nm equals Noll's mode definition on all three branches "
+              "(normalisation, cos/sin, clipping, pupil); zernIndex equals Noll's formula with + for even and - for odd j; radial "
+              "polynomial equals the factorial sum; list/count dispatch, storage indices, allocation coverage and per-mode "
+              "normalisation of zernikeArray; phaseFromZernikes is the linear combination. Bijectivity, orthonormality and gamma "
+              "matrices are not decided."),
+        note="Trusted: oracle text in sa/props/c12.py (Noll 1976); installed NumPy/SciPy for attribute existence."),
+})
+
 NOT_APPLICABLE = {
     "C13": ("every clause is about the output of eigh / eigenvalue sorting / bilinear resampling error computed at "
             "run time; no code-shape fact is a necessary condition that static analysis can decide (DESIGN §5)"),
